@@ -146,7 +146,32 @@ func sliceIdentity(v ssa.Value) string {
 			return valKey(c.Call.Args[0]) + ".bytes"
 		}
 	}
+	// two loads of the same field of the same object denote the same bytes when the function never
+	// stores to that field (s.payload read for len() and again for Write)
+	if u, ok := v.(*ssa.UnOp); ok && u.Op == token.MUL {
+		if fa, ok := u.X.(*ssa.FieldAddr); ok {
+			if fn := u.Parent(); fn != nil && !storesToField(fn, fa) {
+				return fmt.Sprintf("%s.f%d", valKey(fa.X), fa.Field)
+			}
+		}
+	}
 	return valKey(v)
+}
+
+// storesToField: does fn contain a store to field fa.Field of an object of fa's struct type?
+func storesToField(fn *ssa.Function, fa *ssa.FieldAddr) bool {
+	for _, b := range fn.Blocks {
+		for _, ins := range b.Instrs {
+			st, ok := ins.(*ssa.Store)
+			if !ok {
+				continue
+			}
+			if o, ok := st.Addr.(*ssa.FieldAddr); ok && o.Field == fa.Field && types.Identical(o.X.Type(), fa.X.Type()) {
+				return true
+			}
+		}
+	}
+	return false
 }
 
 type sinkWrite struct {
@@ -275,9 +300,16 @@ func sinkWritesOf(fn *ssa.Function, s ssa.Value) (ws []sinkWrite, ordered bool) 
 				}
 				if h := segmentHelper(sc); h.ok && h.sink < len(cc.Args) && unwrapIface(cc.Args[h.sink]) == s && len(cc.Args) == len(sc.Params) {
 					// a generic marker-segment writer (marker, len(payload)+2, payload): one segment
-					w.what, w.val = "segment", cc.Args[h.marker]
-					w.marker = constMarker(cc.Args[h.marker])
-					w.size = linConst(4).add(linTerm("len(" + sliceIdentity(cc.Args[h.body]) + ")"))
+					w.what, w.marker = "segment", -1
+					if h.marker >= 0 {
+						w.val = cc.Args[h.marker]
+						w.marker = constMarker(cc.Args[h.marker])
+					}
+					if h.body >= 0 {
+						w.size = linConst(4).add(linTerm("len(" + sliceIdentity(cc.Args[h.body]) + ")"))
+					} else {
+						w.size = linConst(4).add(linTerm(fmt.Sprintf("len(payload emitted at %p)", call)))
+					}
 				}
 			}
 			ws = append(ws, expandWrite(fn, w)...)
@@ -323,8 +355,38 @@ func runC16(c *Ctx) Info {
 	}
 	nFraming := c.orderFramingRule(fns)
 	nOwnerLen, nBytes := c.ownerLengthRule(fns)
-	nSink := c.ownerSinkRule()
+	nSink := c.ownerSinkRule(fns)
 	c.C.Floor("ORDER-FRAMING", nFraming-c.controlCount("ORDER-FRAMING"), 5)
+	// a marker constant handed to a helper (builder constructor, generic emitter): the segment is
+	// written through the generic emitter whose own length field is checked above
+	if c.genericEmitters > 0 {
+		for _, fn := range fns {
+			if !producesOutput(fn) {
+				continue
+			}
+			for _, b := range fn.Blocks {
+				for _, ins := range b.Instrs {
+					call, ok := ins.(ssa.CallInstruction)
+					if !ok {
+						continue
+					}
+					sc := call.Common().StaticCallee()
+					if sc == nil || !load.InScope(sc) {
+						continue
+					}
+					for _, a := range call.Common().Args {
+						if m := constMarker(a); m >= 0xFF00 {
+							if _, known := j2kSegmentMarkers[m]; known && !c.markersSeen[m] {
+								if bt, ok := a.Type().Underlying().(*types.Basic); ok && bt.Kind() == types.Uint16 {
+									c.markersSeen[m] = true
+								}
+							}
+						}
+					}
+				}
+			}
+		}
+	}
 	// anchors, independent of how many functions share the work: every JPEG 2000 stream needs SIZ,
 	// COD, QCD and SOT, so a segment writer for each must have been found and counted
 	for _, m := range []int64{0xFF51, 0xFF52, 0xFF5C, 0xFF90} {
@@ -338,7 +400,7 @@ func runC16(c *Ctx) Info {
 		c.C.ExpectControl(r)
 	}
 	return Info{
-		Explanation: "ORDER-FRAMING: in every top-level encode function the start-marker write dominates every other write to the sink, the end-marker write dominates every nil-error return and nothing is written after it. OWNER-LENGTH: length-bearing JPEG markers are emitted only through Writer.WriteSegment (which computes len+2); a manual marker+length+payload sequence is handed to BYTES. BYTES: for every JPEG 2000 marker segment and SOT/Psot the bytes written between the marker and the next marker are counted symbolically (constant + len(x) terms, range loops multiplied) and compared with the expression stored in the length field. OWNER-SINK: the entropy coders' byte sinks (HuffmanEncoder.w, GolombWriter.w, bioWriter.buf, MQ encoder output) are written only by the single function that applies byte stuffing.",
+		Explanation: "ORDER-FRAMING: in every top-level encode function the start-marker write dominates every other write to the sink, the end-marker write dominates every nil-error return and nothing is written after it. OWNER-LENGTH: length-bearing JPEG markers are emitted only through Writer.WriteSegment (which computes len+2); a manual marker+length+payload sequence is handed to BYTES. BYTES: for every JPEG 2000 marker segment and SOT/Psot the bytes written between the marker and the next marker are counted symbolically (constant + len(x) terms, range loops multiplied) and compared with the expression stored in the length field. OWNER-SINK: an entropy coder's byte sink is discovered structurally — a field (io.Writer, bytes.Buffer, []byte) of a library struct, in encode-reachable code, for which some method of the struct both tests what it emits against 0xFF/0xFF00 and writes the field (Huffman, Golomb, packet-header bit writer, MQ coder, HT MEL/MagSgn/VLC writers); every function that writes such a field must apply that test itself or be a raw emit helper called only by functions that do.",
 		DoesNotCover: "that stuffing is arithmetically correct (MQ 0x8F rule), field order inside a header, marker codes inside packet bodies, TLM totals beyond the per-part expression, header fields equal to the arguments (NARROW / FLOWS-HEADER are reported under C17)",
 		Trusted:      commonTrusted,
 		Extra:        map[string]any{"framing_functions": nFraming, "length_sites": nOwnerLen, "bytes_segments": nBytes, "sinks": nSink},
@@ -417,6 +479,12 @@ func (c *Ctx) orderFramingRule(fns []*ssa.Function) int {
 			continue
 		}
 		if end == nil {
+			if c.P.UsedAsValue(fn) {
+				// one step of a sequence that some other function drives (a table of emit functions, a
+				// callback): where the end marker is written relative to it is not decided here
+				c.add("ORDER-FRAMING", fn, construct, report.OutOfScope, c.P.Pos(start.Pos()), "the start marker is written by a function value (a step of a sequence driven elsewhere); the order of the steps is not decided")
+				continue
+			}
 			fail(start, "no end-marker write (EOI/EOC) on the same output in this function")
 			continue
 		}
@@ -458,6 +526,7 @@ func (c *Ctx) orderFramingRule(fns []*ssa.Function) int {
 // ownerLengthRule: OWNER-LENGTH (JPEG family) and BYTES (JPEG 2000 + manual JPEG segments).
 func (c *Ctx) ownerLengthRule(fns []*ssa.Function) (nOwner, nBytes int) {
 	c.markersSeen = map[int64]bool{}
+	c.genericEmitters = 0
 	for _, fn := range fns {
 		if !producesOutput(fn) {
 			continue
@@ -468,7 +537,10 @@ func (c *Ctx) ownerLengthRule(fns []*ssa.Function) (nOwner, nBytes int) {
 			ws, _ := sinkWritesOf(fn, fn.Params[h.sink])
 			nBytes++
 			st, detail := c.countSegment(fn, ws, 0)
-			c.add("BYTES", fn, "generic marker segment ("+fn.Params[h.marker].Name()+", "+fn.Params[h.body].Name()+")", st, c.P.Pos(ws[0].ins.Pos()), detail)
+			if st == report.Discharged {
+				c.genericEmitters++
+			}
+			c.add("BYTES", fn, "generic marker segment ("+addrExpr(ws[0].val)+", "+addrExpr(ws[2].val)+")", st, c.P.Pos(ws[0].ins.Pos()), detail)
 			continue
 		}
 		for _, s := range outputSinks(fn) {
@@ -759,99 +831,102 @@ func countTilePart(fn *ssa.Function, ws []sinkWrite, i int) (report.Status, stri
 }
 
 // ownerSinkRule: OWNER-SINK.
-type sinkOwner struct {
-	pkg, typ, field string
-	owners          []string // functions allowed to write the field's sink
-	why             string
-}
-
-var sinkOwners = []sinkOwner{
-	{"jpeg/standard", "HuffmanEncoder", "w", []string{"writeByte"}, "stuffs 0x00 after every 0xFF"},
-	{"jpegls/lossless", "GolombWriter", "w", []string{"flush"}, "emits a 7-bit byte after 0xFF"},
-	{"jpeg2000/t2", "bioWriter", "buf", []string{"byteOut"}, "stuffs a zero bit after 0xFF"},
-}
-
-func (c *Ctx) ownerSinkRule() int {
+func (c *Ctx) ownerSinkRule(encodeFns []*ssa.Function) int {
+	// Structural discovery (no names): an entropy coder's byte sink is a field F (io.Writer,
+	// bytes.Buffer, []byte) of a library struct type T for which some method of T both tests what it
+	// emits against 0xFF / 0xFF00 and writes F. Every function writing such an F must then apply the
+	// escaping itself, or be a raw emit helper that only such functions call.
+	type sinkKey struct {
+		tn *types.TypeName
+		f  int
+	}
+	isSinkFieldType := func(t types.Type) bool {
+		s := t.String()
+		return s == "io.Writer" || strings.HasSuffix(s, "bytes.Buffer") || isByteSlice(t)
+	}
+	writers := map[sinkKey]map[*ssa.Function][]ssa.Instruction{}
+	for _, fn := range encodeFns {
+		for _, b := range fn.Blocks {
+			for _, ins := range b.Instrs {
+				fa, ok := ins.(*ssa.FieldAddr)
+				if !ok {
+					continue
+				}
+				nn := namedOfRecv(fa.X.Type())
+				if nn == nil || nn.Obj().Pkg() == nil {
+					continue
+				}
+				pp := nn.Obj().Pkg().Path()
+				if !(load.IsModule(pp) || load.IsControl(pp)) {
+					continue
+				}
+				st, ok := nn.Underlying().(*types.Struct)
+				if !ok || fa.Field >= st.NumFields() || !isSinkFieldType(st.Field(fa.Field).Type()) {
+					continue
+				}
+				uses := sinkUses(fa)
+				if len(uses) == 0 {
+					continue
+				}
+				k := sinkKey{nn.Obj(), fa.Field}
+				if writers[k] == nil {
+					writers[k] = map[*ssa.Function][]ssa.Instruction{}
+				}
+				writers[k][fn] = append(writers[k][fn], uses...)
+			}
+		}
+	}
+	var keys []sinkKey
+	for k, ws := range writers {
+		// qualifies when a method of the type itself escapes and writes the field
+		q := false
+		for fn := range ws {
+			if fn.Signature.Recv() != nil && testsFF(fn) {
+				if rn := namedOfRecv(fn.Signature.Recv().Type()); rn != nil && rn.Obj() == k.tn {
+					q = true
+				}
+			}
+		}
+		if q {
+			keys = append(keys, k)
+		}
+	}
+	sort.Slice(keys, func(i, j int) bool {
+		a, b := keys[i], keys[j]
+		if a.tn.Pkg().Path() != b.tn.Pkg().Path() {
+			return a.tn.Pkg().Path() < b.tn.Pkg().Path()
+		}
+		if a.tn.Name() != b.tn.Name() {
+			return a.tn.Name() < b.tn.Name()
+		}
+		return a.f < b.f
+	})
 	n := 0
-	owners := append([]sinkOwner{}, sinkOwners...)
-	// control package entries
-	owners = append(owners, sinkOwner{load.ControlsDir + "/c16ctl", "coder", "w", []string{"emit"}, "control"})
-	for _, so := range owners {
-		pk := c.P.ByPath[load.ModPath+"/"+so.pkg]
-		if pk == nil {
-			if strings.HasPrefix(so.pkg, load.ControlsDir) {
-				continue
-			}
-			c.C.Fatalf("anchor unresolved: package %s", so.pkg)
-			continue
-		}
-		tn, _ := pk.Types.Scope().Lookup(so.typ).(*types.TypeName)
-		if tn == nil {
-			c.C.Fatalf("anchor unresolved: type %s.%s", so.pkg, so.typ)
-			continue
-		}
-		st, ok := tn.Type().Underlying().(*types.Struct)
-		fidx := -1
-		if ok {
-			for i := 0; i < st.NumFields(); i++ {
-				if st.Field(i).Name() == so.field {
-					fidx = i
-				}
-			}
-		}
-		if fidx < 0 {
-			c.C.Fatalf("anchor unresolved: field %s.%s.%s", so.pkg, so.typ, so.field)
-			continue
-		}
+	for _, k := range keys {
 		n++
-		writers := map[string][]ssa.Instruction{}
-		for _, fn := range c.scopeFuncs() {
-			for _, b := range fn.Blocks {
-				for _, ins := range b.Instrs {
-					fa, ok := ins.(*ssa.FieldAddr)
-					if !ok || fa.Field != fidx {
-						continue
-					}
-					if nn := namedOfRecv(fa.X.Type()); nn == nil || nn.Obj() != tn {
-						continue
-					}
-					// uses of the field: a write call through it, or the field handed elsewhere
-					for _, use := range sinkUses(fa) {
-						writers[fn.Name()] = append(writers[fn.Name()], use)
-					}
-				}
-			}
+		st := k.tn.Type().Underlying().(*types.Struct)
+		construct := strings.TrimPrefix(k.tn.Pkg().Path(), load.ModPath+"/") + "." + k.tn.Name() + "." + st.Field(k.f).Name()
+		var fns []*ssa.Function
+		for fn := range writers[k] {
+			fns = append(fns, fn)
 		}
-		construct := so.pkg + "." + so.typ + "." + so.field
+		sort.Slice(fns, func(i, j int) bool { return fns[i].String() < fns[j].String() })
 		okAll := true
 		var names []string
-		for fnName, uses := range writers {
-			names = append(names, fnName)
-			// a writer is legitimate when it is the place that applies the escaping: it tests the byte
-			// it emits (or its shift register) against 0xFF / 0xFF00. Names are not frozen: renaming or
-			// splitting the owner keeps the rule quiet as long as every writer escapes.
-			allowed := len(uses) > 0 && c.escapesOrOnlyCalledByEscapers(uses[0].Parent(), 0, map[*ssa.Function]bool{})
-			if !allowed {
+		var owner *ssa.Function
+		for _, fn := range fns {
+			names = append(names, fn.Name())
+			if testsFF(fn) && owner == nil {
+				owner = fn
+			}
+			if !c.escapesOrOnlyCalledByEscapers(fn, 0, map[*ssa.Function]bool{}) {
 				okAll = false
-				var fnv *ssa.Function
-				if len(uses) > 0 {
-					fnv = uses[0].Parent()
-				}
-				c.add("OWNER-SINK", fnv, construct+" written in "+fnName, report.Violated, c.P.Pos(uses[0].Pos()),
-					"the entropy coder's byte sink is written by a function that never tests what it emits against 0xFF (the owner "+strings.Join(so.owners, "/")+" "+so.why+"): bytes emitted here bypass marker escaping, so an unescaped 0xFF xx can appear in the entropy-coded data")
+				c.add("OWNER-SINK", fn, construct+" written in "+fn.Name(), report.Violated, c.P.Pos(writers[k][fn][0].Pos()),
+					"the entropy coder's byte sink is written by a function that never tests what it emits against 0xFF (and is not a raw helper called only by functions that do): bytes emitted here bypass marker escaping, so an unescaped 0xFF xx can appear in the entropy-coded data")
 			}
 		}
 		if okAll {
-			sort.Strings(names)
-			var fnv *ssa.Function
-			for _, fn := range c.scopeFuncs() {
-				if fn.Name() == so.owners[0] && fn.Signature.Recv() != nil {
-					if nn := namedOfRecv(fn.Signature.Recv().Type()); nn != nil && nn.Obj() == tn {
-						fnv = fn
-					}
-				}
-			}
-			c.add("OWNER-SINK", fnv, construct, report.Discharged, "-", fmt.Sprintf("written only in %v", names))
+			c.add("OWNER-SINK", owner, construct, report.Discharged, "-", fmt.Sprintf("written only in %v, each of which tests what it emits against 0xFF (or is a raw helper of one that does)", names))
 		}
 	}
 	return n
@@ -908,6 +983,25 @@ func sinkUses(fa *ssa.FieldAddr) []ssa.Instruction {
 			if x.Referrers() == nil {
 				continue
 			}
+			if isByteSlice(x.Type()) {
+				for _, u := range *x.Referrers() {
+					switch y := u.(type) {
+					case *ssa.IndexAddr:
+						if y.Referrers() != nil {
+							for _, w := range *y.Referrers() {
+								if st, ok := w.(*ssa.Store); ok && st.Addr == ssa.Value(y) {
+									out = append(out, st)
+								}
+							}
+						}
+					case *ssa.Call:
+						if bi, ok := y.Call.Value.(*ssa.Builtin); ok && bi.Name() == "copy" && len(y.Call.Args) > 0 && y.Call.Args[0] == ssa.Value(x) {
+							out = append(out, y)
+						}
+					}
+				}
+				continue
+			}
 			for _, u := range *x.Referrers() {
 				switch y := u.(type) {
 				case ssa.CallInstruction:
@@ -940,7 +1034,20 @@ func sinkUses(fa *ssa.FieldAddr) []ssa.Instruction {
 			}
 			out = append(out, x)
 		case *ssa.Store:
-			// assigning the sink (constructor / reset) is not a write to the stream
+			// assigning the sink (constructor / reset) is not a write to the stream; growing a byte
+			// slice sink by append is: F = append(F, b...)
+			if x.Addr != ssa.Value(fa) {
+				continue
+			}
+			if call, ok := x.Val.(*ssa.Call); ok {
+				if bi, ok := call.Call.Value.(*ssa.Builtin); ok && bi.Name() == "append" && len(call.Call.Args) > 0 {
+					if ld, ok := call.Call.Args[0].(*ssa.UnOp); ok && ld.Op == token.MUL {
+						if fa2, ok := ld.X.(*ssa.FieldAddr); ok && fa2.Field == fa.Field && sameBase(fa2.X, fa.X) {
+							out = append(out, x)
+						}
+					}
+				}
+			}
 		}
 	}
 	return out
